@@ -306,12 +306,13 @@ def context_forwarding_rule(chk, eng: Engine, rule: str) -> None:
         base = eng.cls(modn, cn)
         fams.append([base] + base.all_subclasses())
     n = 0
+    # method name -> parameter lists (without self) of every definition in both families (a constraint calls searches and vice versa)
+    sigs: dict[str, list[list[str]]] = {}
     for fam in fams:
-        # method name -> parameter lists (without self) of every definition in the family
-        sigs: dict[str, list[list[str]]] = {}
         for k in fam:
             for m in k.methods.values():
                 sigs.setdefault(m.name, []).append([p_ for p_ in m.params() if p_ != "self"])
+    for fam in fams:
         for k in fam:
             for m in k.methods.values():
                 mine = [p_ for p_ in m.params() if p_ in CTX]
